@@ -96,4 +96,24 @@ func c16(c *Ctx) {
 		R.Note("badger options expression: %s (SyncWrites explicitly set: %v; badger default is false)", t, strings.Contains(t, "WithSyncWrites"))
 	}
 	R.Floor("C16.on-disk", nopen, 1)
+	// only badger manipulates the files of the store: no file-mutating os/ioutil call anywhere in pkg/db
+	mutators := []string{"os.Remove", "os.RemoveAll", "os.Rename", "os.Truncate", "os.WriteFile", "os.Create", "os.OpenFile", "os.Chmod", "os.Symlink", "os.Link",
+		"io/ioutil.WriteFile", "(*os.File).Truncate", "(*os.File).Write", "(*os.File).WriteAt", "(*os.File).WriteString", "syscall.Unlink", "syscall.Rename", "syscall.Truncate"}
+	nscan := 0
+	for _, f := range p.SrcFuncs(pkgDB) {
+		nscan++
+		eachInstr(f, func(i ssa.Instruction) {
+			ci, ok := i.(ssa.CallInstruction)
+			if !ok {
+				return
+			}
+			n := facts.CalleeName(ci.Common())
+			for _, m := range mutators {
+				if n == m {
+					R.Fail("C16.on-disk", R.Key("C16.on-disk", shortFn(f), "call:"+n), c.rel(p.Pos(i.Pos())), "pkg/db mutates files itself ("+n+" in "+fname(f)+")", "the store directory may only be written by badger: deleting, truncating or rewriting its files (value log, memtable WAL, manifest) outside badger loses acknowledged writes on reopen")
+				}
+			}
+		})
+	}
+	R.Pass("C16.on-disk", "C16.on-disk/no-foreign-file-ops", "", fmt.Sprintf("scanned %d functions of pkg/db for file-mutating calls outside badger", nscan), "who-may-write rule for the store directory")
 }
